@@ -85,6 +85,44 @@ func famKeys(c *ctx) {
 	if p3, err := keys.NewPublicKeyFromString(pub.StringCompressed()); err != nil || !p3.Equal(pub) {
 		c.fail("pubkey-roundtrip", "NewPublicKeyFromString(%s) err=%v", pub.StringCompressed(), err)
 	}
+	// arbitrary bytes as a public key: no panic, and whatever decodes re-encodes to the same bytes
+	{
+		var raw []byte
+		switch r.Intn(5) {
+		case 0:
+			raw = append([]byte{byte(2 + r.Intn(2))}, r.Bytes(32)...)
+		case 1: // x at or above the field prime
+			raw = append([]byte{byte(2 + r.Intn(2))}, bytes.Repeat([]byte{0xff}, 32)...)
+			raw[32] -= byte(r.Intn(4))
+		case 2:
+			raw = append([]byte{4}, r.Bytes(64)...)
+		case 3: // a valid encoding with one byte changed
+			raw = append([]byte{}, pub.UncompressedBytes()...)
+			raw[r.Intn(len(raw))] ^= 1 << uint(r.Intn(8))
+		default:
+			raw = r.Bytes(r.Intn(70))
+		}
+		func() {
+			defer func() {
+				if e := recover(); e != nil {
+					c.fail("pubkey-decode-panic", "NewPublicKeyFromBytes(%x) panicked: %v", raw, e)
+				}
+			}()
+			pk, err := keys.NewPublicKeyFromBytes(raw, elliptic.P256())
+			if err != nil {
+				o.Count("keys:pubkey-decode-err")
+				return
+			}
+			o.Count("keys:pubkey-decode-ok")
+			re := pk.Bytes()
+			if len(raw) == 65 {
+				re = pk.UncompressedBytes()
+			}
+			if !bytes.Equal(re, raw) {
+				c.fail("pubkey-decode-reencode", "NewPublicKeyFromBytes(%x) re-encodes to %x", raw, re)
+			}
+		}()
+	}
 	// private key encodings
 	if p4, err := keys.NewPrivateKeyFromHex(priv.String()); err != nil || !bytes.Equal(p4.Bytes(), priv.Bytes()) {
 		c.fail("privkey-roundtrip", "NewPrivateKeyFromHex(String()) err=%v", err)
@@ -108,7 +146,7 @@ func famNEP2(c *ctx) {
 	r := c.r
 	priv := c.pool.priv[r.Intn(len(c.pool.priv))]
 	params := keys.ScryptParams{N: 1 << uint(r.Range(1, 6)), R: r.Range(1, 4), P: r.Range(1, 2)}
-	std := c.tier == "thorough" && r.Chance(1, 6) || c.k%997 == 0
+	std := r.Chance(1, 12) // the standard (slow) parameters: a few cases per run
 	if std {
 		params = keys.NEP2ScryptParams()
 		c.o.Count("nep2:standard-params")
@@ -127,9 +165,12 @@ func famNEP2(c *ctx) {
 	if err != nil || !bytes.Equal(dec.Bytes(), priv.Bytes()) {
 		c.fail("nep2-roundtrip", "NEP2Decrypt(NEP2Encrypt(k, %q), same) err=%v", pass, err)
 	}
+	// A wrong passphrase must differ as an HMAC key: PBKDF2/HMAC zero-pads short keys, so
+	// "p" and "p\x00" are the same passphrase for scrypt (inherent to NEP-2, not a defect);
+	// adding a non-NUL character always gives a different one (also after NFC normalisation).
 	wrong := pass + "x"
-	if r.Bool() && len(pass) > 0 {
-		wrong = pass[:len(pass)-1]
+	if r.Bool() {
+		wrong = "x" + pass
 	}
 	if d2, err := keys.NEP2Decrypt(enc, wrong, params); err == nil {
 		c.fail("nep2-wrong-passphrase", "NEP2Decrypt with passphrase %q instead of %q succeeded (key equal: %v)", wrong, pass, bytes.Equal(d2.Bytes(), priv.Bytes()))
